@@ -17,7 +17,7 @@ Proof.
 Qed.
 
 Definition eng_holds (pc : spc) : bool :=
-  match pc with SWaitLoop | SWaitUnlock => true | _ => false end.
+  match pc with SWaitLoop | SWaitUnlock | SRegister => true | _ => false end.
 
 Definition ctl_holds (c : cpc) : bool :=
   match c with CP1 | CP2 | CC1 | CC2 | CC3 => true | _ => false end.
@@ -37,6 +37,7 @@ Record SInv (s : sstate) : Prop := {
   si_cont : in_continue (s_c s) = true -> s_held s = false;
   si_wu : s_pc s = SWaitUnlock -> s_flag s = false;
   si_cp2 : s_c s = CP2 -> s_flag s = true;
+  si_reg : s_pc s = SRegister -> s_flag s = true;
   si_acc : exists budget,
       arun o_astep (rev (s_trace s)) (false, 0, 0) = Some (s_held s, open_of (s_pc s), budget) /\
       (s_held s = true -> is_dispatch (s_pc s) = true -> 1 <= budget)
@@ -81,7 +82,7 @@ Ltac acc_same budget Hacc Hbud :=
 
 Lemma SInv_step prog : inductive (s_step prog) SInv.
 Proof.
-  intros t s s' [Hmu Hex Hhf Hco Hwu Hcp2 [budget [Hacc Hbud]]] Hstep.
+  intros t s s' [Hmu Hex Hhf Hco Hwu Hcp2 Hreg [budget [Hacc Hbud]]] Hstep.
   destruct s as [pc c script flag mu woken pq sq now held schd handled trace].
   sfields.
   destruct t as [| |i]; cbn [s_step] in Hstep; [| |discriminate].
@@ -121,6 +122,8 @@ Proof.
       replace (1 =? 1) with true by reflexivity.
       exists budget; split; [reflexivity|]. cbn. discriminate.
     + discriminate.
+    + (* SRegister *)
+      inv_some. constructor; easy_goal; acc_same budget Hacc Hbud.
   - (* controller *)
     unfold s_step_ctl in Hstep. sfields.
     destruct c.
@@ -155,7 +158,7 @@ Theorem serial_at_most_one prog init script o :
   at_most_one (rev (s_trace (s_run prog o (s_init init script)))) = true.
 Proof.
   pose proof (run_invariant (s_step prog) SInv (SInv_step prog) o _ (SInv_init init script)) as H.
-  destruct H as [_ _ _ _ _ _ [b [Hacc _]]]. unfold at_most_one, accepts, s_run. rewrite Hacc. reflexivity.
+  destruct H as [_ _ _ _ _ _ _ [b [Hacc _]]]. unfold at_most_one, accepts, s_run. rewrite Hacc. reflexivity.
 Qed.
 
 (** ... but not quiescence: a witness interleaving. *)
